@@ -351,6 +351,15 @@ impl Prop for C01 {
                 }
             }
         }
+        if !pr.srv.final_reply_sent && c.challenge_without != 0 {
+            // a server that left out SEAL signs without encrypting; a client that seals all the same cannot talk to it:
+            // the exchange ends before the final round, and nothing was released
+            let released = pr.srv.creds.is_some() || pr.srv.log.iter().any(|m| m.name == "cssp_credentials");
+            if released || t.client.is_some() {
+                return Outcome::fail("mismatch", "credentials-released-without-final-round", format!("challenge without {:#x}", c.challenge_without));
+            }
+            return Outcome::pass("challenge-without-flags:final-round-not-reached", true);
+        }
         if !pr.srv.final_reply_sent {
             return Outcome::fail("setup", "final-round-not-reached", format!("server errors {:?}, client error {:?}", pr.srv.errors, t.error));
         }
